@@ -61,16 +61,43 @@ fn truncations(f: &File, fi: usize, ctx: &Ctx, rep: &mut Report) {
     let tname = type_name(f.t);
     for with_shx in [false, true] {
         for l in 0..=f.shp.len() {
-            let case = format!("c13:f{}:trunc-shp:{}:L{}", fi, if with_shx { "idx" } else { "noidx" }, l);
+            // routes: in-memory cursors always; for a sample of the lengths (every 9th, the
+            // header boundary and each record end +-1) also real files opened by path, where
+            // the library reads through its own BufReader<File>
+            let near_end = l == 99 || l == 100 || l == 101 || f.ends.iter().any(|&e| l + 1 == e || l == e || l == e + 1);
+            let by_path = !cfg!(miri) && (l % 9 == fi % 9 || near_end);
+            for route in ["cursor", "path"] {
+            if route == "path" && !by_path {
+                continue;
+            }
+            let case = format!("c13:f{}:trunc-shp:{}:L{}{}", fi, if with_shx { "idx" } else { "noidx" }, l, if route == "path" { ":path" } else { "" });
             if !ctx.want(&case) {
                 continue;
             }
             rep.eval();
             rep.nontrivial(&case);
-            rep.class(if with_shx { "truncated .shp, intact .shx" } else { "truncated .shp, no index" });
+            rep.class(if route == "path" { "truncated .shp on disk, opened by path" } else if with_shx { "truncated .shp, intact .shx" } else { "truncated .shp, no index" });
             let cut = f.shp[..l].to_vec();
             let res = panicmon::catch(|| {
-                let rd = if with_shx { ShapeReader::with_shx(Cursor::new(cut), Cursor::new(f.shx.clone())) } else { ShapeReader::new(Cursor::new(cut)) };
+                let rd = if route == "path" {
+                    let base = format!("{}/files/f{}_{}", ctx.out, fi, if with_shx { "idx" } else { "noidx" });
+                    std::fs::write(format!("{}.shp", base), &cut).expect("harness: write truncated file");
+                    let shx_path = format!("{}.shx", base);
+                    if with_shx {
+                        std::fs::write(&shx_path, &f.shx).expect("harness: write index file");
+                    } else {
+                        let _ = std::fs::remove_file(&shx_path);
+                    }
+                    rep.count("truncated_files_opened_by_path", 1);
+                    match ShapeReader::from_path(format!("{}.shp", base)) {
+                        Err(e) => return Err((err_class(&e), matches!(e, Error::IoError(_)))),
+                        Ok(mut rd) => return Ok(iterate(&mut rd, n + 2)),
+                    }
+                } else if with_shx {
+                    ShapeReader::with_shx(Cursor::new(cut), Cursor::new(f.shx.clone()))
+                } else {
+                    ShapeReader::new(Cursor::new(cut))
+                };
                 match rd {
                     Err(e) => Err((err_class(&e), matches!(e, Error::IoError(_)))),
                     Ok(mut rd) => Ok(iterate(&mut rd, n + 2)),
@@ -80,7 +107,7 @@ fn truncations(f: &File, fi: usize, ctx: &Ctx, rep: &mut Report) {
             let detail = |what: &str, items: J| {
                 J::obj(vec![("type", J::s(tname)), ("truncated_to", J::UInt(l as u64)), ("full_length", J::UInt(f.shp.len() as u64)), ("with_index", J::Bool(with_shx)), ("records_wholly_inside", J::UInt(whole as u64)), ("what", J::s(what)), ("items", items), ("shp_hex", J::bytes_hex(&f.shp))])
             };
-            let sig = |field: &str| format!("trunc-shp/{}/{}", if with_shx { "idx" } else { "noidx" }, field);
+            let sig = |field: &str| format!("trunc-shp/{}{}/{}", if with_shx { "idx" } else { "noidx" }, if route == "path" { "/path" } else { "" }, field);
             match res {
                 Err(p) => rep.violation(&sig("panic"), &case, detail(&p.class(), J::Null)),
                 Ok(Err((class, is_io))) => {
@@ -130,6 +157,7 @@ fn truncations(f: &File, fi: usize, ctx: &Ctx, rep: &mut Report) {
                         rep.violation(&sig(&b), &case, detail(&b, items_json(&items)));
                     }
                 }
+            }
             }
         }
     }
@@ -361,12 +389,20 @@ pub fn run(ctx: &Ctx) -> Report {
         let want: Vec<D> = shapes.iter().map(|s| s.d().expected_after_roundtrip()).collect();
         let ends: Vec<usize> = rawshp::walk(&shp).iter().map(|r| r.end()).collect();
         assert_eq!(ends.len(), shapes.len(), "harness: record walk disagrees with the number of shapes written");
+        if !cfg!(miri) {
+            std::fs::create_dir_all(format!("{}/files", ctx.out)).expect("harness: mkdir");
+        }
         let f = File { t, shp, shx, want, ends };
         truncations(&f, idx, ctx, rep);
         faults_and_chunks(&f, idx, ctx, rep);
         rep.sample(|| J::obj(vec![("file", J::UInt(idx as u64)), ("type", J::s(type_name(t))), ("records", J::UInt(f.want.len() as u64)), ("shp_bytes", J::UInt(f.shp.len() as u64)), ("record_ends", J::Arr(f.ends.iter().map(|e| J::UInt(*e as u64)).collect()))]));
     });
     if ctx.only.is_none() {
+        if !cfg!(miri) {
+            let v = rep.counters.get("truncated_files_opened_by_path").copied().unwrap_or(0);
+            rep.guard("truncated files opened by path", v, 200);
+            let _ = std::fs::remove_dir_all(format!("{}/files", ctx.out));
+        }
         for k in ["cut_records_reported_as_io_error", "faults_injected_read", "faults_injected_seek", "short_read_schedules", "cut_index_rejected_at_open"] {
             let v = rep.counters.get(k).copied().unwrap_or(0);
             rep.guard(k, v, if cfg!(miri) { 1 } else { 100 });
